@@ -388,6 +388,7 @@ def run(ch: Checker) -> None:
     ch.import_rules('C05', {'C05.1': 'C17.9', 'C05.8': 'C17.13'}, 'an exception raised by one work\'s handler ends that work in the shared loop as the `finally: shutdown()` of the thread-per-connection loop does; '
                     'a socket closed before teardown is harmless where descriptors are re-registered on every tick and poisons the selector of the shared loop')
     ch.import_rules('C10', {'C10.1': 'C17.11', 'C10.6': 'C17.14'}, 'every way out of either driver shuts the work down and closes what that mode received for it (the duplicated descriptor of a worker process included)')
+    ch.rule('C17.15', 'per-connection code keeps no per-process memory of earlier answers: no lru_cache / cache / cached_property on functions of the per-connection modules (expected 0 sites)', 1)
     ch.rule('C17.10', 'dispatch to worker processes stays within the pool: every subscript of the acceptor\'s executor_* lists uses an index reduced modulo the number of executors '
                       '(flags.num_workers, which is how many the pool starts, or the length of that list)', 3)
 
@@ -643,6 +644,21 @@ def run(ch: Checker) -> None:
         if sp:
             ch.check(sp == st, 'C17.5', rn, 'in-process executor stopped when started', 'stopped under the same condition', 'the in-process executor is stopped under %s but started under %s' % (sorted(sp), sorted(st)))
 
+    # ------------------------------------------------------------ C17.15 nothing per-connection is remembered per process
+    from .common import _memo_decorator
+    n15 = 0
+    for fn in prog.all_functions('proxy', include_inlined=True):
+        if not fn.module.relpath.startswith(PER_CONNECTION):
+            continue
+        dn = _memo_decorator(getattr(fn, 'orig_node', fn.node))
+        if dn:
+            n15 += 1
+            ch.bad('C17.15', fn, '@%s' % dn, '%s is memoised per process: which process answers a connection depends on the execution mode (one acceptor process for every connection, or a worker process chosen '
+                   'round-robin), so the same conversation gets remembered answers in one mode and fresh ones in another' % fn.qualname)
+    probe15 = ast.parse('@lru_cache(maxsize=2)\ndef f(x):\n    return x\n').body[0]
+    assert _memo_decorator(probe15) == 'lru_cache'
+    if n15 == 0:
+        ch.ok('C17.15', None, 'memoised per-connection code', 'no function of the per-connection modules is memoised (matcher verified on a built-in example)', module_rel='proxy/http/')
     # ------------------------------------------------------------ C17.10
     n10 = 0
     for fn in (prog.lookup_method(acc, nm) for nm in sorted(acc.methods) + sorted(acc.inlined_methods)):
